@@ -87,7 +87,7 @@ class Liveness:
 
 class Run:
     def __init__(self, prog, entry, K=60, overrides=None, map_perm=False, max_instr=400000, name=None,
-                 reduce=True, verbose=False):
+                 reduce=True, verbose=False, inits=()):
         self.prog = prog
         self.entry = entry
         self.K = K
@@ -95,6 +95,7 @@ class Run:
         self.m.map_perm = map_perm
         if overrides:
             self.m.overrides.update(overrides)
+        self.inits = list(inits)
         self.live = Liveness()
         self.sched = []       # per step: list of (tid, descr, cond, opt)
         self.fires = []
@@ -121,6 +122,11 @@ class Run:
         m.threads.append(th)
         alt = Alt(th, True)
         m.push_call(alt, self.entry, [])
+        # package-level variable initialisers of the named packages run first (concretely, in this thread)
+        m.init_allowed = set(self.inits)
+        for pkg in reversed(self.inits):
+            m.push_call(alt, pkg + ".init", [])
+            alt.frames[-1].tag = "init"
         res = m.run_alt(alt)
         self.finish_step(res)
 
@@ -275,38 +281,53 @@ class Run:
 
         cands = []   # (thread, alt, cond, opt, read objs)
         quiesce = []
+        skipped_en = []
+        prev = self.prev
         for t, a in parked:
+            # event-driven examination: an alternative that was examined before and whose footprint no
+            # transition of the previous step touched is exactly as (un)enabled as it was, and by the
+            # Foata rule it cannot fire now; it is not re-examined
+            if a.foot is not None and prev is not None and self.foata:
+                touched = False
+                for ptid in prev["fires"]:
+                    if ptid == t.tid:
+                        continue
+                    if self.conflict(a.foot[0], a.foot[1], prev["R"].get(ptid, ()) or set(), prev["W"].get(ptid, ()) or set()):
+                        touched = True
+                        break
+                if not touched:
+                    if a.en_last is not False and a.en_last is not None:
+                        skipped_en.append(AND(a.guard, a.en_last))
+                    m.stats["skipped"] = m.stats.get("skipped", 0) + 1
+                    continue
             opts = self.options(a, mk_waiters(t.tid))
             if opts == "quiesce":
                 quiesce.append((t, a))
                 continue
+            a.foot = (set(), set())
+            a.en_last = False
+            for g_, c_ in self.recv_chans(a):
+                a.foot[1].add(("wait", c_.obj))
             for cond, opt, robjs in opts:
+                a.foot[0].update(robjs)
                 if AND(a.guard, cond) is False:
                     continue
                 cands.append((t, a, cond, opt, robjs))
-        any_other = OR(*[AND(a.guard, cond) for (t, a, cond, opt, robjs) in cands])
+        any_other = OR(*([AND(a.guard, cond) for (t, a, cond, opt, robjs) in cands] + skipped_en))
         for t, a in quiesce:
             cands.append((t, a, NOT(any_other), None, {"*"}))
         live = []
         for c in cands:
             a, cond = c[1], c[2]
-            # an alternative's guard only gets stronger while it stays parked: an enabling condition that
-            # was infeasible stays infeasible as long as it is the same formula
-            cid = cond.get_id() if is_z3(cond) else cond
-            if a.dead is not None and cid in a.dead:
-                continue
             if m.feasible(a.guard, cond):
                 live.append(c)
-            else:
-                if a.dead is None:
-                    a.dead = set()
-                a.dead.add(cid)
+                a.en_last = OR(False if a.en_last is None else a.en_last, cond)
         if self.verbose:
             for c in cands:
                 print("      cand t%d %s %s" % (c[0].tid, self.describe(c[1], c[3]), "" if c in live else "(infeasible)"), flush=True)
         if not live:
             return False
-        any_en = OR(*[AND(a.guard, cond) for (t, a, cond, opt, robjs) in live])
+        any_en = OR(*([AND(a.guard, cond) for (t, a, cond, opt, robjs) in live] + skipped_en))
         tids = sorted({t.tid for (t, a, cond, opt, robjs) in live})
         R = {tid: set() for tid in tids}
         W = {tid: set() for tid in tids}
@@ -314,7 +335,7 @@ class Run:
             R[t.tid].update(robjs)
             for g_, c_ in self.recv_chans(a):
                 W[t.tid].add(("wait", c_.obj))
-        deterministic = (len(live) == 1 and not m.feasible(NOT(any_en)))
+        deterministic = (len(live) == 1 and not m.feasible(NOT(AND(live[0][1].guard, live[0][2]))))
         if deterministic:
             fires = {tids[0]: True}
         else:
@@ -363,6 +384,14 @@ class Run:
                 m.stats["macro_steps"] += 1
                 res = m.run_alt(child)
                 self.footprint_after(t.tid, res, R, W)
+                if a.foot is None:
+                    a.foot = (set(), set())
+                for r in res:
+                    a.foot[0].update(r.rd)
+                    a.foot[1].update(r.ov.keys())
+                    if r.status == "parked":
+                        for g_, c_ in self.recv_chans(r):
+                            a.foot[1].add(("wait", c_.obj))
                 results += res
             if deterministic:
                 a.guard = False
@@ -440,6 +469,13 @@ class Run:
                 self.start_thread(alt, name, args, fv)
                 res = m.run_alt(alt)
                 newres += res
+                # sequential composition of the first (local) segments of goroutines started in one step
+                rds = [set(r.rd) for r in res]
+                wrs = [set(r.ov.keys()) for r in res]
+                self.apply(res)
+                for r, rd_, wr_ in zip(res, rds, wrs):
+                    r.rd = rd_
+                    r.ov = dict.fromkeys(wr_)
                 rw = spawn_rw.setdefault(self.root_spawner(parent_alt.thread.tid, spawned_map), (set(), set()))
                 for r in res:
                     rw[0].update(r.rd)
@@ -447,7 +483,8 @@ class Run:
                     if r.status == "parked":
                         for g_, c_ in self.recv_chans(r):
                             rw[1].add(("wait", c_.obj))
-            self.apply(newres)
+            for r in newres:
+                r.ov = {}
             results = results + newres
         self.new_threads_last = spawned_map
         # 3. bookkeeping + merge
@@ -527,7 +564,7 @@ class Run:
         for a in alts:
             self.prune(a)
             key = (a.loc(), a.info[0] if a.info else None, len(a.info[1]) if a.info else 0, a.opt,
-                   frozenset(a.nalloc.items()))
+                   frozenset(kv for kv in a.nalloc.items() if kv[0][0] == "go"))
             if key not in groups:
                 groups[key] = []
                 order.append(key)
@@ -540,6 +577,8 @@ class Run:
                 continue
             m.stats["merges"] += len(g) - 1
             base = g[-1]
+            base.foot = None
+            base.en_last = None
             for a in reversed(g[:-1]):
                 for fb, fa in zip(base.frames, a.frames):
                     for rk in set(fb.regs) | set(fa.regs):
